@@ -519,6 +519,8 @@ mod __vx_leafcheck {
         if out.status.success() { let _ = std::fs::remove_file(&file); return Ok(()); }
         let err = String::from_utf8_lossy(&out.stderr);
         let firsts: Vec<&str> = err.lines().filter(|l| l.starts_with("error")).take(3).collect();
+        // a compiler that dies without a diagnostic (killed, out of memory) says nothing about the module: no verdict
+        if firsts.is_empty() { return Err(format!("cannot tell: rustc ended with {} and no error line", out.status)); }
         Err(firsts.join(" | "))
     }
 
